@@ -40,11 +40,13 @@ FLAGS = [
     'reg_temp',         # a variable used only inside the region (region-local temporary)
     'reg_inquiry_only',  # an array may appear in the region ONLY as argument of SIZE / LBOUND / UBOUND
     'routine_use',      # the kernel imports by routine-level USE (replicated into the new routine)
+    'mixed_case',       # the layout may spell one identifier with different letter case from occurrence to occurrence
     # internal procedures
     'int_host_read', 'int_host_write', 'int_host_array', 'int_host_dtype', 'int_host_param', 'int_host_dimvar',
     'int_host_loopvar',  # internal procedure reads the host's DO variable while being called inside that loop
     'int_host_multiref',  # a host array may be referenced in several forms (a(1), a(i), a) by one internal procedure
     'int_fun',           # an internal function (referenced inside an expression)
+    'int_pure_host',     # an internal function that reads host variables may be PURE
     'int_multi',         # two internal procedures
     'int_calls_int',     # one internal procedure calls the other
     'int_kw',            # existing calls already use keyword arguments
@@ -256,6 +258,11 @@ def build(spec):
             r, sig = GI.make_fun(b, g, f'ifun{k}', 7 + k, [], elemental=False, host=host_for_int, internal=True)
             int_funs.append(sig)
             b.use('int_fun')
+            if sig['hread'] and 'pure' in (r.get('prefix') or []):
+                if F('int_pure_host'):
+                    b.use('int_pure_host')
+                else:
+                    r['prefix'] = [x for x in r['prefix'] if x != 'pure']
         else:
             r, sig = GI.make_sub(b, g, f'isub{k}', 4 + k, [], funs, host=host_for_int, internal=True)
             sig['marked'] = False
@@ -316,12 +323,15 @@ def build(spec):
                 body = r['body']
                 pos = len(body) - (1 if body and body[-1] == ['return'] else 0)
                 r['body'] = body[:pos] + extra + body[pos:]
-            multi = [nm for nm, v in host_for_int.vars.items() if v.get('dims') and not v.get('path')
+            hosted = gen.Env()     # the host arrays that this internal procedure really accesses (not shadowed by its locals)
+            hosted.vars = {nm: host_for_int.vars[nm] for nm in sorted(set(sig['hread']) | set(sig['hwrite']))
+                           if nm in host_for_int.vars}
+            multi = [nm for nm, v in hosted.vars.items() if v.get('dims') and not v.get('path')
                      and len(designators_of(r['body'], nm, [])) > 1]
             if multi and F('int_host_multiref'):
                 b.use('int_host_multiref')
             elif multi:
-                single_form(r, host_for_int, keep=keep_stmts)
+                single_form(r, hosted, keep=keep_stmts)
             int_subs.append(sig)
         ints_r.append(r)
 
@@ -577,6 +587,15 @@ def build(spec):
     f = {'name': 'kmod.f90', 'units': units}
     inputs = gen.gen_inputs(b.g('inputs'), entry_args, 4)
     layout = GI.layout_from(b.g('layout'))
+    if layout.get('idcase') == 'mixed':
+        if F('mixed_case'):
+            b.use('mixed_case')
+        else:
+            layout['idcase'] = 'lower'
+    if use_dt:
+        # fparser (third party) cannot read "TYPE( &<newline> TP) LD" (continuation inside the type spec of a declaration
+        # without "::"); the frontend is not the subject of this property
+        layout['dcolon'] = True
     return {'files': [f], 'entry': {'module': entry_mod, 'name': 'kernel', 'args': entry_args},
             'inputs': inputs, 'layout': layout,
             'meta': {'features': sorted(b.features), 'sites': meta_sites, 'free': free}}
